@@ -1,0 +1,15 @@
+//go:build verif
+
+// Verification hook for property C15 (add-only, compiled only with -tags verif):
+// read-only view of what ParseOperator/SetOperator stored in a compiled rule.
+
+package corazawaf
+
+// VerifC15Operator returns the operator function name as written (e.g. "!@rx"), the
+// operator argument and the negation flag; ok is false for rules without operator.
+func (r *Rule) VerifC15Operator() (function, data string, negation, ok bool) {
+	if r.operator == nil {
+		return "", "", false, false
+	}
+	return r.operator.Function, r.operator.Data, r.operator.Negation, true
+}
